@@ -183,6 +183,10 @@ func (c Command) ForEach(ctx context.Context, payload xml.TokenReader, s *xmpp.S
 		}
 		c, payload, err = f(resp, respPayload)
 		if err != nil {
+			// The session waits for the response to be closed before it handles
+			// anything else.
+			/* #nosec */
+			respPayload.Close()
 			return err
 		}
 		err = respPayload.Close()
